@@ -489,6 +489,16 @@ func (en *DefaultEngine) Exec(ctx context.Context, input []byte) (bool, error) {
 		ctx = context.WithValue(ctx, "SessionId", en.cfg.SessionId)
 	}
 
+	if len(input) > state.INPUT_LIMIT {
+		return false, fmt.Errorf("input size %v too large (limit %v)", len(input), state.INPUT_LIMIT)
+	}
+	if len(input) > 0 {
+		_, err = vm.ValidInput(input)
+		if err != nil {
+			return true, err
+		}
+	}
+
 	cont, err := en.init(ctx, input)
 	if err != nil {
 		return false, err
@@ -510,12 +520,6 @@ func (en *DefaultEngine) Exec(ctx context.Context, input []byte) (bool, error) {
 		}
 	}
 
-	if len(input) > 0 {
-		_, err = vm.ValidInput(input)
-		if err != nil {
-			return true, err
-		}
-	}
 	err = en.st.SetInput(input)
 	if err != nil {
 		return false, err
